@@ -157,4 +157,109 @@ func firstUse(cx *lib.Ctx) {
 			break
 		}
 	}
+	firstUseBody(cx)
+}
+
+// firstUseBody: the first content extraction on a freshly parsed body, by all goroutines at once, with schemas
+// naming one or several block types (Content, PartialContent and the remaining body's Content).
+func firstUseBody(cx *lib.Ctx) {
+	res := cx.Res
+	R := cx.R.Fork()
+	rounds := cx.Scale(250, 10000)
+	if raceEnabled {
+		rounds = cx.Scale(100, 2000)
+	}
+	goroutines := 8
+	types := []string{"svc", "net", "vol"}
+	for i := 0; i < rounds; i++ {
+		r := R.Fork()
+		var sb strings.Builder
+		nblocks := 20 + r.Intn(60)
+		for k := 0; k < nblocks; k++ {
+			fmt.Fprintf(&sb, "%s \"l%d\" {\n  n = %d\n}\n", types[r.Intn(len(types))], k, k)
+		}
+		sb.WriteString("top = 1\n")
+		src := sb.String()
+		schemas := make([]*hcl.BodySchema, goroutines)
+		for g := range schemas {
+			sc := &hcl.BodySchema{Attributes: []hcl.AttributeSchema{{Name: "top"}}}
+			nt := 1
+			if g%3 == 2 {
+				nt = 2
+			}
+			for _, t := range types[(g % 3):][:1] {
+				sc.Blocks = append(sc.Blocks, hcl.BlockHeaderSchema{Type: t, LabelNames: []string{"name"}})
+			}
+			if nt == 2 {
+				sc.Blocks = append(sc.Blocks, hcl.BlockHeaderSchema{Type: types[(g+1)%3], LabelNames: []string{"name"}})
+			}
+			schemas[g] = sc
+		}
+		dump := func(c *hcl.BodyContent, d hcl.Diagnostics) string {
+			var out []string
+			for _, b := range c.Blocks {
+				out = append(out, b.Type+":"+strings.Join(b.Labels, ","))
+			}
+			return fmt.Sprintf("attrs=%d blocks=[%s] %s", len(c.Attributes), strings.Join(out, " "), diagList(d))
+		}
+		call := func(body hcl.Body, g int) (out string) {
+			defer func() {
+				if x := recover(); x != nil {
+					out = fmt.Sprintf("PANIC: %v", x)
+				}
+			}()
+			if g%2 == 0 {
+				c, rest, d := body.PartialContent(schemas[g])
+				s := dump(c, d)
+				c2, _, d2 := rest.PartialContent(schemas[(g+1)%goroutines])
+				return s + " || " + dump(c2, d2)
+			}
+			c, d := body.Content(&hcl.BodySchema{Attributes: schemas[g].Attributes, Blocks: []hcl.BlockHeaderSchema{
+				{Type: "svc", LabelNames: []string{"name"}}, {Type: "net", LabelNames: []string{"name"}}, {Type: "vol", LabelNames: []string{"name"}}}})
+			c1, _, d1 := body.PartialContent(schemas[g])
+			return dump(c, d) + " || " + dump(c1, d1)
+		}
+		parse := func() hcl.Body {
+			f, diags := hclsyntax.ParseConfig([]byte(src), "", hcl.InitialPos)
+			if diags.HasErrors() {
+				return nil
+			}
+			return f.Body
+		}
+		ref, fresh := parse(), parse()
+		if ref == nil || fresh == nil {
+			continue
+		}
+		expected := make([]string, goroutines)
+		for g := range expected {
+			expected[g] = call(ref, g)
+		}
+		got := make([]string, goroutines)
+		var start, done sync.WaitGroup
+		start.Add(1)
+		for g := 0; g < goroutines; g++ {
+			done.Add(1)
+			go func(g int) {
+				defer done.Done()
+				start.Wait()
+				got[g] = call(fresh, g)
+			}(g)
+		}
+		start.Done()
+		done.Wait()
+		res.Count("first-use-rounds:body")
+		res.Evaluations += goroutines
+		res.Case(fmt.Sprintf("first-use-body|%d", i), true)
+		for g := range got {
+			if got[g] != expected[g] {
+				res.Fail(lib.Failure{Kind: "oracle", Key: "first-use-differs:body",
+					Desc:  fmt.Sprintf("goroutine %d of %d: the first, concurrent content extraction on a freshly parsed body gives a different result than the same calls made alone on another parse of the same source", g, goroutines),
+					Input: "FIRSTUSE body " + src, Impl: "alone:      " + lib.Trunc(expected[g], 1200) + "\nconcurrent: " + lib.Trunc(got[g], 1200)})
+				break
+			}
+		}
+		if len(res.Failures) > 3 {
+			break
+		}
+	}
 }
